@@ -1,3 +1,573 @@
 package main
 
-func cmdCheck(args []string) int { return 2 }
+import (
+	"bufio"
+	"encoding/json"
+	"flag"
+	"fmt"
+	"os"
+	"os/exec"
+	"path/filepath"
+	"sort"
+	"strconv"
+	"strings"
+	"time"
+)
+
+type KnownFinding struct {
+	Property   string `json:"property"`
+	Obligation string `json:"obligation"`
+	What       string `json:"what"`
+	Replay     string `json:"replay,omitempty"`
+	Status     string `json:"status"` // "open" or "fixed"
+	Commit     string `json:"commit,omitempty"`
+}
+
+func loadKnownFindings() []KnownFinding {
+	var out []KnownFinding
+	f, err := os.Open(filepath.Join(verifDir, "known_findings.jsonl"))
+	if err != nil {
+		return nil
+	}
+	defer f.Close()
+	sc := bufio.NewScanner(f)
+	sc.Buffer(make([]byte, 1<<20), 1<<20)
+	for sc.Scan() {
+		line := strings.TrimSpace(sc.Text())
+		if line == "" || strings.HasPrefix(line, "#") {
+			continue
+		}
+		var k KnownFinding
+		if json.Unmarshal([]byte(line), &k) == nil {
+			out = append(out, k)
+		}
+	}
+	return out
+}
+
+func loadBaseline(id string) map[string]bool {
+	out := map[string]bool{}
+	f, err := os.Open(filepath.Join(verifDir, "baseline", id+".txt"))
+	if err != nil {
+		return out
+	}
+	defer f.Close()
+	sc := bufio.NewScanner(f)
+	for sc.Scan() {
+		l := strings.TrimSpace(sc.Text())
+		if l != "" && !strings.HasPrefix(l, "#") {
+			out[l] = true
+		}
+	}
+	return out
+}
+
+func hasProp(props []string, id string) bool {
+	for _, p := range props {
+		if p == id {
+			return true
+		}
+	}
+	return false
+}
+
+// oblInProperty decides whether an obligation counts for property id.
+func oblInProperty(o *Obligation, c *Contract, id string) bool {
+	if len(o.Props) > 0 {
+		return hasProp(o.Props, id)
+	}
+	return hasProp(c.Props, id)
+}
+
+func contractMentions(c *Contract, id string) bool {
+	if hasProp(c.Props, id) {
+		return true
+	}
+	for _, cl := range c.Ensures {
+		if hasProp(cl.Props, id) {
+			return true
+		}
+	}
+	for _, ls := range c.Loops {
+		for _, cl := range ls.Invariants {
+			if hasProp(cl.Props, id) {
+				return true
+			}
+		}
+	}
+	return false
+}
+
+type oblStatus struct {
+	ID       string
+	Func     string
+	Kind     string
+	Text     string
+	Cover    bool
+	OK       bool
+	Status   string // worst status among instances
+	Solver   string
+	TimeS    float64
+	Bytes    int
+	Paths    int
+	Output   string
+	File     string
+	Pos      string
+	FailPath string
+}
+
+func cmdCheck(args []string) int {
+	fs := flag.NewFlagSet("check", flag.ExitOnError)
+	tier := fs.String("tier", os.Getenv("VERIF_TIER"), "quick|thorough")
+	replay := fs.String("replay", "", "re-run a replay file")
+	updateBaseline := fs.Bool("update-baseline", false, "rewrite baseline/<id>.txt from this run (maintenance only)")
+	fs.Parse(reorderArgs(args))
+	if fs.NArg() < 1 {
+		fmt.Fprintln(os.Stderr, "usage: check <ID> [--tier quick|thorough] [--replay path]")
+		return 2
+	}
+	id := fs.Arg(0)
+	if *tier == "" {
+		*tier = "quick"
+	}
+	if *replay != "" {
+		return runReplayFile(id, *replay)
+	}
+	seed := 0
+	if s := os.Getenv("VERIF_SEED"); s != "" {
+		seed, _ = strconv.Atoi(s)
+	}
+	secs := 10
+	if *tier == "thorough" {
+		secs = 60
+	}
+	t0 := time.Now()
+	p, err := loadAll()
+	if err != nil {
+		fmt.Printf("ERROR: cannot load /repo: %v\n", err)
+		return 2
+	}
+	loadS := time.Since(t0).Seconds()
+	sr := newSortReg()
+	var keys []string
+	for k, c := range p.contract {
+		if c.Trusted || c.Iface {
+			continue
+		}
+		if contractMentions(c, id) {
+			keys = append(keys, k)
+		}
+	}
+	sort.Strings(keys)
+	workDir := filepath.Join(verifDir, ".work", id)
+	os.RemoveAll(workDir)
+	var all []*Obligation
+	var unbound, contractErrs, unsupported, notes []string
+	trusted := map[string]bool{}
+	assumeSites := 0
+	funcsUnder := []string{}
+	globalNotes := checkGlobalsImmutable(p)
+	for _, k := range keys {
+		fn := p.funcs[k]
+		if fn == nil {
+			unbound = append(unbound, k+": function not found in /repo")
+			continue
+		}
+		c := p.contract[k]
+		v := newVerifier(p, sr, fn, c)
+		res := v.run()
+		if res.ContractErr != "" {
+			contractErrs = append(contractErrs, k+": "+res.ContractErr)
+			continue
+		}
+		if res.Unsupported != "" {
+			unsupported = append(unsupported, k+": "+res.Unsupported)
+		}
+		funcsUnder = append(funcsUnder, k)
+		for _, o := range res.Obls {
+			if oblInProperty(o, c, id) || o.Cover {
+				all = append(all, o)
+			}
+		}
+		for _, n := range res.Notes {
+			notes = append(notes, k+": "+n)
+		}
+		for _, t := range res.Trusted {
+			trusted[t] = true
+		}
+		assumeSites += res.Assumes
+	}
+	// lemmas tagged with the property
+	for _, l := range p.lemmas {
+		if hasProp(l.Props, id) {
+			if o, err := lemmaObligation(p, sr, l); err != nil {
+				contractErrs = append(contractErrs, "lemma "+l.Name+": "+err.Error())
+			} else {
+				all = append(all, o)
+			}
+		}
+	}
+	genS := time.Since(t0).Seconds() - loadS
+	solveAll(all, workDir, secs, 16)
+	// aggregate per obligation ID
+	agg := map[string]*oblStatus{}
+	var order []string
+	solverTime := 0.0
+	byBackend := map[string]int{}
+	for _, o := range all {
+		s := agg[o.ID]
+		if s == nil {
+			s = &oblStatus{ID: o.ID, Func: o.Func, Kind: o.Kind, Text: o.Text, Cover: o.Cover, OK: true, Status: "unsat"}
+			if o.Cover {
+				s.Status = "sat"
+			}
+			agg[o.ID] = s
+			order = append(order, o.ID)
+		}
+		s.Paths++
+		solverTime += o.Result.TimeS
+		good := o.Result.Status == "unsat"
+		if o.Cover {
+			good = o.Result.Status == "sat"
+		}
+		if good {
+			byBackend[o.Result.Solver]++
+			if s.OK {
+				s.Solver, s.Bytes = o.Result.Solver, o.Result.Bytes
+				if o.Result.TimeS > s.TimeS {
+					s.TimeS = o.Result.TimeS
+				}
+			}
+		} else if s.OK || (s.Status != "sat" && o.Result.Status == "sat") {
+			s.OK = false
+			s.Status, s.Solver, s.TimeS, s.Bytes = o.Result.Status, o.Result.Solver, o.Result.TimeS, o.Result.Bytes
+			s.Output, s.File, s.Pos, s.FailPath = o.Result.Output, o.Result.File, o.Pos, o.Path
+		}
+	}
+	known := loadKnownFindings()
+	baseline := loadBaseline(id)
+	if *updateBaseline {
+		var lines []string
+		for _, oid := range order {
+			if agg[oid].OK && !agg[oid].Cover {
+				lines = append(lines, oid)
+			}
+		}
+		sort.Strings(lines)
+		os.MkdirAll(filepath.Join(verifDir, "baseline"), 0o755)
+		os.WriteFile(filepath.Join(verifDir, "baseline", id+".txt"), []byte(strings.Join(lines, "\n")+"\n"), 0o644)
+	}
+	// verdicts
+	violations := 0
+	var violationLines, knownLines, undecided []string
+	var knownHit []string
+	discharged, total := 0, 0
+	var samples []map[string]interface{}
+	replayDir := filepath.Join(verifDir, "replays", id)
+	for _, oid := range order {
+		s := agg[oid]
+		isKnown := false
+		for _, k := range known {
+			if k.Property == id && k.Status == "open" && k.Obligation == oid {
+				isKnown = true
+				if !s.OK {
+					knownLines = append(knownLines, fmt.Sprintf("KNOWN-FINDING: property=%s %s [%s]", id, k.What, oid))
+					knownHit = append(knownHit, oid)
+				}
+			}
+		}
+		if isKnown {
+			if s.OK {
+				// the recorded defect no longer fails: the entry is stale; report as information only
+				notes = append(notes, "known finding "+oid+" now discharges (entry is stale)")
+			}
+			continue
+		}
+		total++
+		if s.OK {
+			discharged++
+			if len(samples) < 6 {
+				samples = append(samples, map[string]interface{}{"obligation": oid, "status": s.Status, "solver": s.Solver, "time_s": round3(s.TimeS), "smt_bytes": s.Bytes, "paths": s.Paths, "clause": trunc(s.Text, 160)})
+			}
+			continue
+		}
+		if s.Cover {
+			// vacuous contract: the precondition (or an assumption) is unsatisfiable
+			violations++
+			rp := writeReplay(replayDir, s, id, "vacuous contract: cover obligation is not satisfiable")
+			violationLines = append(violationLines, fmt.Sprintf("VIOLATION property=%s replay=%s obligation=%s (vacuous contract) no-failing-input-found", id, rp, oid))
+			continue
+		}
+		inBase := baseline[oid]
+		if s.Status == "sat" || inBase {
+			violations++
+			rp, confirmed := replayObligation(p, replayDir, s, id)
+			suffix := " no-failing-input-found"
+			if confirmed {
+				suffix = ""
+			}
+			violationLines = append(violationLines, fmt.Sprintf("VIOLATION property=%s replay=%s obligation=%s status=%s%s", id, rp, oid, s.Status, suffix))
+			samples = append(samples, map[string]interface{}{"obligation": oid, "status": s.Status, "solver": s.Solver, "clause": trunc(s.Text, 160), "replay": rp, "confirmed_on_real_code": confirmed})
+		} else {
+			undecided = append(undecided, fmt.Sprintf("%s (%s)", oid, s.Status))
+			total--
+		}
+	}
+	// missing explicit baseline obligations => the contracts no longer bind to the code
+	var missing []string
+	for b := range baseline {
+		if _, ok := agg[b]; !ok && isExplicit(b) {
+			missing = append(missing, b)
+		}
+	}
+	sort.Strings(missing)
+	exit := 0
+	for _, l := range knownLines {
+		fmt.Println(l)
+	}
+	for _, l := range violationLines {
+		fmt.Println(l)
+	}
+	if len(contractErrs) > 0 || len(unbound) > 0 || len(missing) > 0 {
+		for _, e := range contractErrs {
+			fmt.Println("UNBOUND contract error:", e)
+		}
+		for _, e := range unbound {
+			fmt.Println("UNBOUND", e)
+		}
+		for _, e := range missing {
+			fmt.Println("UNBOUND baseline obligation not regenerated:", e)
+		}
+		exit = 2
+	}
+	if total == 0 && exit == 0 && len(knownHit) == 0 {
+		fmt.Printf("ERROR: no obligations generated for %s\n", id)
+		exit = 2
+	}
+	if violations > 0 {
+		exit = 1
+	}
+	for _, u := range undecided {
+		fmt.Println("UNDECIDED (new obligation, no definite answer):", u)
+	}
+	for _, u := range unsupported {
+		fmt.Println("PARTIAL (outside the supported subset after this point):", u)
+	}
+	wall := time.Since(t0).Seconds()
+	fmt.Printf("%s: %d functions under contract, %d obligations, %d discharged, %d violations, %d known findings, %d undecided; load %.1fs gen %.1fs total %.1fs\n",
+		id, len(funcsUnder), total, discharged, violations, len(knownHit), len(undecided), loadS, genS, wall)
+	// evidence
+	var tb []string
+	for t := range trusted {
+		tb = append(tb, t)
+	}
+	sort.Strings(tb)
+	tb = append(tb, "govc SSA->SMT translation (DESIGN.md §2.3)", "SMT solvers z3 4.8.12 / z3 5.1.0 / cvc5 1.0 (unsat answers)", "go/ssa lowering of the Go tool chain (x/tools v0.29.0)")
+	assumptions := []string{
+		"machine integers are modelled exactly (wrap-around), not as mathematical integers",
+		"package-level variables are not reassigned after init (checked syntactically: " + globalNotes + ")",
+		"trusted stubs for library functions as listed in coverage.trusted_base",
+		"heap type invariant: values read from memory are well-formed for their Go type",
+	}
+	for _, a := range p.axioms {
+		assumptions = append(assumptions, "axiom "+a.Name+": "+a.Text)
+	}
+	sort.Strings(notes)
+	notes = dedupe(notes)
+	for _, n := range notes {
+		if strings.Contains(n, "assume ") || strings.Contains(n, "havoc") || strings.Contains(n, "goroutine") || strings.Contains(n, "channel") {
+			assumptions = append(assumptions, n)
+		}
+	}
+	if extra := propertyAssumptions[id]; len(extra) > 0 {
+		assumptions = append(assumptions, extra...)
+	}
+	ev := map[string]interface{}{
+		"property_id": id,
+		"tier":        *tier,
+		"seed":        seed,
+		"level":       "proof",
+		"coverage": map[string]interface{}{
+			"obligations":              total,
+			"discharged":               discharged,
+			"checker_cmd":              fmt.Sprintf("./check %s --tier %s  (govc: go/ssa symbolic execution against contracts in /repo/*/verif_contracts.go; z3 4.8.12, z3 5.1.0, cvc5 1.0 raced per obligation, %ds limit)", id, secs),
+			"trusted_base":             tb,
+			"functions_under_contract": funcsUnder,
+			"by_backend":               byBackend,
+			"solver_time_s":            round3(solverTime),
+			"smt_queries":              len(all),
+			"evaluations":              len(all),
+			"distinct_nontrivial":      total,
+			"rule":                     "one SMT query per obligation instance (obligation x path); distinct = distinct obligation identifiers; an obligation counts as discharged only if every path instance is unsat (covers: sat)",
+			"samples":                  samples,
+			"known_findings":           knownHit,
+			"undecided_new":            undecided,
+			"unsupported":              unsupported,
+			"assume_sites":             assumeSites,
+			"notes":                    notes,
+			"source_hash":              p.srcHash,
+			"contract_files":           relFiles(p.files),
+		},
+		"assumptions": assumptions,
+		"wall_s":      round3(wall),
+		"violations":  violations,
+	}
+	os.MkdirAll(filepath.Join(verifDir, "evidence"), 0o755)
+	buf, _ := json.MarshalIndent(ev, "", " ")
+	os.WriteFile(filepath.Join(verifDir, "evidence", id+".json"), buf, 0o644)
+	return exit
+}
+
+var propertyAssumptions = map[string][]string{}
+
+func relFiles(fs []string) []string {
+	var out []string
+	for _, f := range fs {
+		out = append(out, f)
+	}
+	return out
+}
+
+func dedupe(xs []string) []string {
+	var out []string
+	seen := map[string]bool{}
+	for _, x := range xs {
+		if !seen[x] {
+			seen[x] = true
+			out = append(out, x)
+		}
+	}
+	return out
+}
+
+func round3(f float64) float64 { return float64(int(f*1000+0.5)) / 1000 }
+
+// reorderArgs moves flags before positional args so "check C01 --tier quick" works.
+func reorderArgs(args []string) []string {
+	var flags, pos []string
+	for i := 0; i < len(args); i++ {
+		a := args[i]
+		if strings.HasPrefix(a, "-") {
+			flags = append(flags, a)
+			if (a == "--tier" || a == "-tier" || a == "--replay" || a == "-replay") && i+1 < len(args) {
+				flags = append(flags, args[i+1])
+				i++
+			}
+		} else {
+			pos = append(pos, a)
+		}
+	}
+	return append(flags, pos...)
+}
+
+func isExplicit(oid string) bool {
+	i := strings.Index(oid, "/")
+	if i < 0 {
+		return false
+	}
+	k := oid[i+1:]
+	for _, p := range []string{"post.", "inv.", "dec.", "lemma.", "ghost."} {
+		if strings.HasPrefix(k, p) {
+			return true
+		}
+	}
+	return false
+}
+
+// writeReplay writes a replay record naming the failed obligation and carrying the solver output.
+func writeReplay(dir string, s *oblStatus, id, why string) string {
+	os.MkdirAll(dir, 0o755)
+	path := filepath.Join(dir, safeName(s.ID)+".txt")
+	var b strings.Builder
+	fmt.Fprintf(&b, "property: %s\nobligation: %s\nkind: %s\nclause: %s\nposition: %s\npath: %s\nsolver: %s\nstatus: %s\nreason: %s\nsmt_file: %s\n\nsolver output:\n%s\n", id, s.ID, s.Kind, s.Text, s.Pos, s.FailPath, s.Solver, s.Status, why, s.File, trunc(s.Output, 20000))
+	os.WriteFile(path, []byte(b.String()), 0o644)
+	return path
+}
+
+// checkGlobalsImmutable verifies syntactically that no function other than package
+// initialisers stores to a package-level variable of the mkdb packages.
+func checkGlobalsImmutable(p *Program) string {
+	n := 0
+	var bad []string
+	for k, fn := range p.funcs {
+		if fn.Pkg == nil || !strings.Contains(fn.Pkg.Pkg.Path(), "mk6i/mkdb") {
+			continue
+		}
+		if fn.Name() == "init" || strings.HasPrefix(fn.Name(), "init#") {
+			continue
+		}
+		n++
+		for _, b := range fn.Blocks {
+			for _, in := range b.Instrs {
+				if s := storeToGlobal(in); s != "" {
+					bad = append(bad, k+" writes "+s)
+				}
+			}
+		}
+	}
+	if len(bad) > 0 {
+		sort.Strings(bad)
+		return fmt.Sprintf("VIOLATED by %v", bad)
+	}
+	return fmt.Sprintf("holds for %d functions", n)
+}
+
+func runReplayFile(id, path string) int {
+	if strings.HasSuffix(path, "_test.go") {
+		ok, out := runGoReplay(path)
+		fmt.Println(out)
+		if ok {
+			fmt.Printf("VIOLATION property=%s replay=%s (replay reproduces)\n", id, path)
+			return 1
+		}
+		return 0
+	}
+	b, err := os.ReadFile(path)
+	if err != nil {
+		fmt.Println("cannot read replay:", err)
+		return 2
+	}
+	fmt.Println(string(b))
+	// a text replay names the obligation; re-run the check to see whether it still fails
+	return cmdCheck([]string{id})
+}
+
+// runGoReplay runs an in-package replay test against the real code through go test -overlay.
+// The first line of the file must be "//replay pkg=<dir relative to repo> run=<TestName>".
+// The test must FAIL (exit status != 0 with "REPRODUCED" in the output) when the defect is present.
+func runGoReplay(path string) (reproduced bool, output string) {
+	data, err := os.ReadFile(path)
+	if err != nil {
+		return false, err.Error()
+	}
+	first := strings.SplitN(string(data), "\n", 2)[0]
+	var pkg, run string
+	for _, f := range strings.Fields(first) {
+		if strings.HasPrefix(f, "pkg=") {
+			pkg = f[4:]
+		}
+		if strings.HasPrefix(f, "run=") {
+			run = f[4:]
+		}
+	}
+	if pkg == "" || run == "" {
+		return false, "replay file lacks //replay header"
+	}
+	tmp, err := os.MkdirTemp(filepath.Join(verifDir, ".work"), "replay")
+	if err != nil {
+		os.MkdirAll(filepath.Join(verifDir, ".work"), 0o755)
+		tmp, _ = os.MkdirTemp(filepath.Join(verifDir, ".work"), "replay")
+	}
+	defer os.RemoveAll(tmp)
+	target := filepath.Join(repoDir, pkg, "zz_verif_replay_test.go")
+	ov := map[string]map[string]string{"Replace": {target: path}}
+	ovb, _ := json.Marshal(ov)
+	ovf := filepath.Join(tmp, "overlay.json")
+	os.WriteFile(ovf, ovb, 0o644)
+	cmd := exec.Command("go", "test", "-overlay", ovf, "-vet=off", "-count=1", "-timeout", "120s", "-run", "^"+run+"$", "./"+pkg)
+	cmd.Dir = repoDir
+	cmd.Env = append(os.Environ(), "GOFLAGS=-mod=mod", "GOPROXY=off", "GOSUMDB=off", "GOTOOLCHAIN=local")
+	out, _ := cmd.CombinedOutput()
+	s := string(out)
+	return strings.Contains(s, "REPRODUCED"), trunc(s, 6000)
+}
